@@ -1295,6 +1295,12 @@ func (s *Sym) evalCall(v *ssa.Call) *Term {
 		return s.callTerm(v)
 	}
 	name := calleeName(cc)
+	// slices.Concat(a, b, ...) is a || b || ... in fresh storage
+	if strings.HasPrefix(name, "slices.Concat") && len(cc.Args) == 1 {
+		if lt := s.Of(cc.Args[0]); lt.Op == "list" {
+			return catTerms(lt.Args...)
+		}
+	}
 	// byte-string producers
 	switch name {
 	case "(*golang.org/x/crypto/cryptobyte.Builder).BytesOrPanic", "(*golang.org/x/crypto/cryptobyte.Builder).Bytes":
